@@ -408,6 +408,16 @@ def open_source(spec, scratch=None):
         return Source(spec, g, aligned_model(g), inputs, mesh)
 
 
+class ProvenanceFailure(Exception):
+    """A public call of the provenance pipeline (encode, reopen, isel) failed: attributable to the
+    library, not to the harness."""
+
+    def __init__(self, stage, exc):
+        super().__init__(f"{stage}: {type(exc).__name__}: {str(exc)[:200]}")
+        self.stage = stage
+        self.exc_type = type(exc).__name__
+
+
 def derive_provenance(g, spec):
     """Optional further provenance of the grid under test: a SECOND-GENERATION grid (opened from
     the UGRID encoding of a grid on which some quantities had been derived) and/or a SUBSET of it
@@ -421,7 +431,10 @@ def derive_provenance(g, spec):
                 getattr(g, nm)
             except Exception:
                 pass
-        g = ux.open_grid(g.to_xarray("ugrid"))
+        try:
+            g = ux.open_grid(g.to_xarray("ugrid"))
+        except Exception as e:
+            raise ProvenanceFailure("reencode", e)
     sub = spec.get("subset")
     if sub:
         n = g.n_face
@@ -430,7 +443,10 @@ def derive_provenance(g, spec):
             if x % n not in seen:
                 seen.add(x % n)
                 idx.append(x % n)
-        g = g.isel(n_face=idx)
+        try:
+            g = g.isel(n_face=idx)
+        except Exception as e:
+            raise ProvenanceFailure("subset", e)
     return g
 
 
